@@ -1350,12 +1350,37 @@ class Engine:
                     st.events.append(('pda', 'find', es, prog.e, key))
                     return StructV('tuple', 't', {0: IntV(key, 'Pubkey'), 1: IntV(bump, 'u8')}, lazy=False)
         # ---- iterator models over fixed arrays / short lists, closures executed from their own MIR
+        mm = re.match(r'^core::slice::<impl \[(.*)\]>::(chunks_exact|windows)$', c)
+        if mm and isinstance(args[0], RefV) and isinstance(args[1], IntV) and z3.is_int_value(z3.simplify(args[1].e)):
+            # adjacent groups of a short list: a derived list of k-element lists (values copied: the groups are read-only views), then iterated like any list
+            k = z3.simplify(args[1].e).as_long(); lv = self.deref_val(args[0])
+            if isinstance(lv, StructV) and k >= 1:
+                n = lv.fields['__len'].e if '__len' in lv.fields else None
+                if n is None:
+                    am = re.match(r'^\[(.*); (\d+)\]$', lv.ty.strip()); n = int(am.group(2)) if am else None
+                if n is not None:
+                    bound = n if isinstance(n, int) else LIST_K
+                    elty = lv.fields.get('__elemty', mm.group(1)); step = k if mm.group(2) == 'chunks_exact' else 1
+                    groups = {}; gi = 0; start = 0
+                    while start + k <= bound:
+                        items = {}
+                        for j in range(k):
+                            if start + j not in lv.fields: lv.fields[start + j] = self.ex.fresh(elty, f'{lv.name}[{start + j}]')
+                            items[j] = lv.fields[start + j]
+                        items['__len'] = IntV(z3.IntVal(k), 'usize'); items['__elemty'] = elty
+                        groups[gi] = StructV(f'[{elty}]', self.ex.fresh_name('group'), items, lazy=False)      # the iterator yields a reference to this element = `&[T]`
+                        gi += 1; start += step
+                    cnt = (n // k if mm.group(2) == 'chunks_exact' else max(n - k + 1, 0)) if isinstance(n, int) else \
+                          (n / k if mm.group(2) == 'chunks_exact' else z3.If(n >= k, n - k + 1, 0))
+                    groups['__len'] = IntV(zint_(cnt), 'usize'); groups['__elemty'] = f'[{elty}]'
+                    gl = StructV(f'[&[{elty}]]', self.ex.fresh_name('groups'), groups, lazy=False)
+                    return StructV('Iter', self.ex.fresh_name('iter'), {'__list': RefV(Cell(gl)), '__idx': 0}, lazy=False)
         mm = re.match(r'^core::slice::<impl \[.*\]>::(iter|iter_mut)$', c)
         if mm:
             return StructV('Iter', self.ex.fresh_name('iter'), {'__list': args[0], '__idx': 0}, lazy=False)
-        if re.match(r'^<(std|core)::slice::(Iter|IterMut)<.*> as IntoIterator>::into_iter$', c) or re.match(r'^<(Filter|Enumerate|std::iter::Filter|std::iter::Enumerate)<.*> as IntoIterator>::into_iter$', c):
+        if re.match(r'^<((std|core)::slice::)?(Iter|IterMut|ChunksExact|Windows)<.*> as IntoIterator>::into_iter$', c) or re.match(r'^<(Filter|Enumerate|std::iter::Filter|std::iter::Enumerate)<.*> as IntoIterator>::into_iter$', c):
             return args[0]
-        mm = re.match(r'^<(?:std|core)::slice::(?:Iter|IterMut)<.*> as Iterator>::(filter|enumerate|position|find|any|all)(?:::<(.*)>)?$', c)
+        mm = re.match(r'^<(?:(?:std|core)::slice::)?(?:Iter|IterMut|ChunksExact|Windows)<.*> as Iterator>::(filter|enumerate|position|find|any|all)(?:::<(.*)>)?$', c)
         if mm:
             kind = mm.group(1); it = self.deref_val(args[0])
             if kind == 'enumerate':
@@ -1390,7 +1415,7 @@ class Engine:
             return StructV('Iter', self.ex.fresh_name('iter'), {'__list': lst, '__idx': 0}, lazy=False)
         if re.match(r'^<std::slice::Iter<.*> as IntoIterator>::into_iter$', c):
             return args[0]
-        if re.match(r'^<std::slice::(Iter|IterMut)<.*> as Iterator>::next$', c):
+        if re.match(r'^<((std|core)::slice::)?(Iter|IterMut|ChunksExact|Windows)<.*> as Iterator>::next$', c):
             it = self.deref_val(args[0]); lst = it.fields['__list']; lv = self.deref_val(lst)
             n_ = self.iter_len(it)
             if isinstance(n_, int):       # fixed-size array: concrete trip count
